@@ -7,6 +7,7 @@ import aglib
 import gen
 import qast
 from props.common import *
+from props import ext
 
 TRUSTED_BASE = ['transcendental functions (libm), parseDate (dtparse) on text other than RFC 3339 UTC, now(), and to_string of floats, dates, durations and of containers holding them or non-ASCII text are outside the model: such cases are counted as unmodelled',
                 'timeslice is checked on the implementation alone against Python integer arithmetic on RFC 3339 timestamps']
@@ -277,4 +278,10 @@ def explore(ctx):
         'comparison_pairs_checked': ncmp, 'timeslice_rows_checked': nts, 'precedence_pairs_checked': prec_checked,
         'model_vs_impl_disagreements': sum(1 for r in results if r['corr']),
     }
+    # the text of a float as the string functions see it (Rust's `{}`; F64Display.v): equal to the model, reads back as the
+    # same double, shortest, no exponent form
+    n_f, ok_f, f_f, st_f = ext.f64_family(rng, quick)
+    failures += f_f
+    cov['evaluations'] += n_f
+    cov['float_text_family'] = dict(st_f, texts_equal_to_the_model=ok_f)
     return {'coverage': cov, 'failures': failures}
